@@ -465,6 +465,15 @@ static std::vector<Bytes> cmpSeeds(const Corpus& c)
     }
     s.push_back(ref::buildFrame(dataH, {c.A[1].m, c.A[5].m, c.A[9].m}));
     s.push_back(ref::buildFrame(dataH, {}));
+    // continuation segments that fit the state of a default-constructed reassembly entry / header (version 1, message type 0, counter
+    // 0 + 1) on an endpoint without an open message, with fewer and more payload bytes than a message header has
+    {
+        ref::FrameHdr z;
+        z.device = 0x0A0B; z.stream = 7; z.version = 1; z.msgType = 0; z.seq = 1;
+        for (uint8_t seg : {(uint8_t) 2, (uint8_t) 3})
+            for (size_t len : {(size_t) 0, (size_t) 5, (size_t) 20})
+                s.push_back(ref::buildFrame(z, {ref::mkMsg(0xFE, patt(len, 60 + seg), (uint8_t) (seg << 2), 5, 6)}));
+    }
     return s;
 }
 
@@ -563,6 +572,14 @@ static C02Ctx makeC02(bool thorough)
     }
     addSub(seg(dh, 65535, 1, 3, 9));
     addSub(seg(dh, 0, 3, 3, 10));
+    {
+        // orphan continuation fitting a default-constructed entry (message type 0, counter 1)
+        ref::FrameHdr z = dh;
+        z.msgType = 0;
+        addSub(seg(z, 1, 2, 5, 15));
+        addSub(seg(z, 1, 3, 0, 16));
+        addSub(seg(z, 2, 3, 5, 17));
+    }
     {
         Bytes f = seg(dh, 10, 1, 5, 11);
         f.resize(f.size() - 3);   // declared length overruns
